@@ -24,6 +24,7 @@ type seqResult struct {
 	err      error
 	panic    *drive.PanicInfo
 	srcStats simdisk.SourceStats
+	again    []string // outcomes of the calls made after the terminal error (sticky read faults only)
 }
 
 // readerMode names a way of reading sequentially or through the index.
@@ -55,10 +56,21 @@ func contentRecs(recs []*model.Rec) []*model.Rec {
 
 func runSeq(mode readerMode, img []byte, cfg scen.Cfg, del scen.Delivery, fault *scen.Fault) *seqResult {
 	res := &seqResult{}
+	// a medium that has failed for good (every Read fails from some call on): the consumer polls a
+	// few more times after the error. Not done for an unreadable byte at one position: a seeking
+	// reader may legitimately get past it on a later call (after a failed metadata read the indexed
+	// iterator goes on to the messages), and the property does not say what such calls return.
+	again := 0
+	if fault != nil && fault.Sticky && fault.Kind == "read_err_call" {
+		again = 3
+	}
 	switch mode {
 	case "lexer", "lexer_crc":
 		src := simdisk.NewSource(img, del, fault)
-		lr := drive.LexAll(src, lexSpecFor(mode, cfg))
+		spec := lexSpecFor(mode, cfg)
+		spec.AgainAfterErr = again
+		lr := drive.LexAll(src, spec)
+		res.again = lr.Again
 		res.recs = contentRecs(lr.Recs)
 		res.terminal = lr.Terminal()
 		res.err = lr.Err
@@ -81,7 +93,8 @@ func runSeq(mode readerMode, img []byte, cfg scen.Cfg, del scen.Delivery, fault 
 		res.srcStats = src.St
 	case "scan":
 		src := simdisk.NewSource(img, del, fault)
-		ir := drive.ReadMessages(src, drive.ReadSpec{UseIndex: false, MetaCB: true, MaxMsgs: 200000})
+		ir := drive.ReadMessages(src, drive.ReadSpec{UseIndex: false, MetaCB: true, MaxMsgs: 200000, AgainAfterErr: again})
+		res.again = ir.Again
 		res.recs = ir.Msgs
 		res.terminal = ir.Terminal()
 		res.err = ir.FirstErr()
@@ -89,7 +102,8 @@ func runSeq(mode readerMode, img []byte, cfg scen.Cfg, del scen.Delivery, fault 
 		res.srcStats = src.St
 	case "indexed0", "indexed1", "indexed2":
 		src := simdisk.NewSeekSource(img, del, fault)
-		ir := drive.ReadMessages(src, drive.ReadSpec{UseIndex: true, Order: int(mode[7] - '0'), MetaCB: true, MaxMsgs: 200000})
+		ir := drive.ReadMessages(src, drive.ReadSpec{UseIndex: true, Order: int(mode[7] - '0'), MetaCB: true, MaxMsgs: 200000, AgainAfterErr: again})
+		res.again = ir.Again
 		res.recs = ir.Msgs
 		res.terminal = ir.Terminal()
 		res.err = ir.FirstErr()
